@@ -418,7 +418,7 @@ func main() {
 		"valid instances stay inside the intersection of the named RFC and goa's doc comments: date/date-time = RFC 3339 full-date/date-time with upper-case T and Z, no leap second; uuid = the four spellings listed above validateUUID, RFC 4122 variant, versions 1-5, lower-case urn prefix; email = RFC 5322 addr-spec without CFWS/obs forms (name-addr such as `Name <a@b>` is neither generated nor used as a corruption); hostname = RFC 1035 §2.3.1 labels (letter first) — names with digit-first labels, trailing dot, and all-numeric TLDs are not judged; ipv4 without leading zeros; ipv6 per RFC 4291 §2.2 without zone; uri = RFC 3986 'URI' production (scheme required), no percent-encoding in host; mac = MAC-48/EUI-48/EUI-64 in the colon, hyphen and dotted forms (the 20-octet InfiniBand form the stdlib also takes is not judged); cidr without leading zeros in the length; json = RFC 8259 text in UTF-8, no lone surrogate escapes; rfc1123 = the fixed-length form 'Www, DD Mon YYYY HH:MM:SS zone' with zone GMT, a US zone name of RFC 822, or a numeric ±HHMM zone (RFC 1123 §5.2.14 recommends the numeric form); optional elements of the RFC 822 grammar (no weekday, 1-digit day, no seconds, UT, military zones, folding white space) and weekday/date mismatches are not judged either way",
 		"pattern verdicts are compared with a fresh regexp.MustCompile(p).MatchString(v), as the statement names it; the matching-by-construction samples only cross-check the generator",
 		"format verdicts under concurrency are compared with the single-threaded verdict on the same string (so known single-threaded findings are not reported twice)",
-		"race reports are grouped by the innermost non-runtime function of each of the two conflicting accesses",
+		"race reports are grouped by the innermost function outside the runtime and the standard library in each of the two conflicting accesses",
 	)
 	if run.Replay != "" {
 		replay(run)
